@@ -54,19 +54,61 @@ def all_refs(spec):
     return refs
 
 
-def schema_text(spec, standalone):
+def schemas_of(spec):
+    """the xs:schema elements of the definition: [{"ns", "form", "attr_form"}] (form defaults: None = not
+    declared).  Without spec["schemas"]: the single qualified schema of the earlier rounds."""
+    return spec.get("schemas") or [{"ns": spec["xns"], "form": "qualified", "attr_form": None}]
+
+
+def schema_index(spec, ref):
+    """which schema declares the element / type `ref` (stable, spread over all schemas)"""
+    over = spec.get("ref_schema") or {}
+    if ref in over:
+        return over[ref]
+    return sum(map(ord, ref)) % len(schemas_of(spec))
+
+
+def ref_ns(spec, ref):
+    return schemas_of(spec)[schema_index(spec, ref)]["ns"]
+
+
+def ref_prefix(spec, ref):
+    i = schema_index(spec, ref)
+    return "ty" if i == 0 else f"ty{i}"
+
+
+def child_ns(spec, ref, name="a"):
+    """namespace of the local child element `name` of `ref`: its own form= if it has one (child `n` when the
+    schema has "n_form"), else the schema's elementFormDefault; qualified only if that says so (XSD 3.3.2)"""
+    sch = schemas_of(spec)[schema_index(spec, ref)]
+    form = sch.get("n_form") if name == "n" and sch.get("n_form") else sch.get("form")
+    return sch["ns"] if form == "qualified" else None
+
+
+def attr_ns(spec, ref):
+    sch = schemas_of(spec)[schema_index(spec, ref)]
+    return sch["ns"] if sch.get("attr_form") == "qualified" else None
+
+
+def schema_text(spec, idx):
     out = []
     x = "xsd"
-    head = f'<{x}:schema xmlns:{x}="{XSD_NS}" xmlns:ty={quoteattr(spec["xns"])} targetNamespace={quoteattr(spec["xns"])} elementFormDefault="qualified">'
-    out.append(head)
+    sch = schemas_of(spec)[idx]
+    head = f'<{x}:schema xmlns:{x}="{XSD_NS}" targetNamespace={quoteattr(sch["ns"])}'
+    if sch.get("form") is not None:
+        head += f' elementFormDefault="{sch["form"]}"'
+    if sch.get("attr_form") is not None:
+        head += f' attributeFormDefault="{sch["attr_form"]}"'
+    out.append(head + ">")
+    nform = f' form="{sch["n_form"]}"' if sch.get("n_form") else ""
     for r in all_refs(spec):
-        if r.startswith("xsd:"):
+        if r.startswith("xsd:") or schema_index(spec, r) != idx:
             continue
         if r.startswith("E"):
             out.append(
                 f'<{x}:element name="{r}"><{x}:complexType><{x}:sequence>'
-                f'<{x}:element name="a" type="{x}:string"/><{x}:element name="n" type="{x}:int" minOccurs="0"/>'
-                f"</{x}:sequence></{x}:complexType></{x}:element>"
+                f'<{x}:element name="a" type="{x}:string"/><{x}:element name="n" type="{x}:int" minOccurs="0"{nform}/>'
+                f'</{x}:sequence><{x}:attribute name="k" type="{x}:string"/></{x}:complexType></{x}:element>'
             )
         elif r.startswith("T"):
             out.append(
@@ -87,11 +129,11 @@ def schema_text(spec, standalone):
     return "\n".join(out)
 
 
-def part_text(w, p):
+def part_text(w, p, spec):
     if p["kind"] == "element":
-        return f'<{w}part name="{p["name"]}" element="ty:{p["ref"]}"/>'
+        return f'<{w}part name="{p["name"]}" element="{ref_prefix(spec, p["ref"])}:{p["ref"]}"/>'
     if p["kind"] == "type":
-        ref = p["ref"] if p["ref"].startswith("xsd:") else "ty:" + p["ref"]
+        ref = p["ref"] if p["ref"].startswith("xsd:") else ref_prefix(spec, p["ref"]) + ":" + p["ref"]
         return f'<{w}part name="{p["name"]}" type="{ref}"/>'
     return f'<{w}part name="{p["name"]}"/>'
 
@@ -104,16 +146,24 @@ def render(spec) -> dict:
     o = []
     o.append(
         f'<{w}definitions {xmlns_w} xmlns:soap="{WSDL_SOAP_NS}" xmlns:tns={quoteattr(spec["tns"])} '
-        f'xmlns:ty={quoteattr(spec["xns"])} xmlns:xsd="{XSD_NS}" targetNamespace={quoteattr(spec["tns"])} name="Svc">'
+        + "".join(f'xmlns:{"ty" if i == 0 else f"ty{i}"}={quoteattr(sc["ns"])} ' for i, sc in enumerate(schemas_of(spec)))
+        + f'xmlns:xsd="{XSD_NS}" targetNamespace={quoteattr(spec["tns"])} name="Svc">'
     )
     files = {}
+    n = len(schemas_of(spec))
     if spec.get("schema") == "import":
-        files["types.xsd"] = schema_text(spec, True)
-        o.append(f'<{w}types><xsd:schema><xsd:import namespace={quoteattr(spec["xns"])} schemaLocation="types.xsd"/></xsd:schema></{w}types>')
+        # one file (and so one SchemaParser) per schema
+        imports = ""
+        for i, sc in enumerate(schemas_of(spec)):
+            name = "types.xsd" if i == 0 else f"types{i}.xsd"
+            files[name] = schema_text(spec, i)
+            imports += f'<xsd:import namespace={quoteattr(sc["ns"])} schemaLocation="{name}"/>'
+        o.append(f"<{w}types><xsd:schema>{imports}</xsd:schema></{w}types>")
     else:
-        o.append(f"<{w}types>{schema_text(spec, False)}</{w}types>")
+        # every schema inline, in order: they are all read by the parser instance that reads the WSDL
+        o.append(f"<{w}types>" + "\n".join(schema_text(spec, i) for i in range(n)) + f"</{w}types>")
     for m in all_messages(spec):
-        o.append(f'<{w}message name="{m["name"]}">' + "".join(part_text(w, p) for p in m["parts"]) + f"</{w}message>")
+        o.append(f'<{w}message name="{m["name"]}">' + "".join(part_text(w, p, spec) for p in m["parts"]) + f"</{w}message>")
     o.append(f'<{w}portType name="{spec["pt"]}">')
     for op in spec["ops"]:
         o.append(f'<{w}operation name="{op["name"]}">')
@@ -225,6 +275,20 @@ def split_message(rng, op, direction):
         op["out_headers"], op["out_sel"] = hs, sel
 
 
+FORMS = [None, "qualified", "unqualified"]
+
+
+def gen_schemas(rng, xns):
+    """1-3 schemas with every combination of declared / undeclared form defaults; the first keeps `xns`"""
+    n = rng.choice([1, 1, 2, 2, 2, 3])
+    nss = [xns, xns.rstrip("/") + "/b", "urn:third"][:n]
+    out = []
+    for ns in nss:
+        out.append({"ns": ns, "form": rng.choice(FORMS + ["qualified"]), "attr_form": rng.choice(FORMS + [None]),
+                    "n_form": rng.choice([None, None, "qualified", "unqualified"])})
+    return out
+
+
 def gen_spec(rng: random.Random, nops=None, simple_ok=True, conventional=None, oneway=0.0) -> dict:
     """A definition in the supported fragment: 1-4 operations x document/rpc x
     element/type parts x optional headers/faults x inline/imported schema."""
@@ -234,6 +298,7 @@ def gen_spec(rng: random.Random, nops=None, simple_ok=True, conventional=None, o
     spec = {
         "tns": tns,
         "xns": xns,
+        "schemas": gen_schemas(rng, xns),
         "schema": rng.choice(["inline", "import"]),
         "root_prefix": rng.choice([None, "wsdl"]),
         "bstyle": bstyle,
